@@ -218,6 +218,165 @@ func c09Big(r *rt.Run) {
 	})
 }
 
+// Moved big objects: the zigzag built under each index kind and then
+// translated through Move by an exact offset beyond its own extent and by
+// offsets that are inexact in binary. Probes come from the moved object's own
+// positions (exactly on its boundary whatever the rounding did).
+var c09MoveDeltas = [][2]float64{{0, 0.3}, {0.1, 0}, {1000, -1000}, {1.0 / 3, 0.7}}
+
+func bigMoved(shape, n int, kind geometry.IndexKind, d [2]float64) (geojson.Object, geometry.Series) {
+	switch o := bigObj(shape, n, kind).(type) {
+	case *geojson.LineString:
+		m := o.Base().Move(d[0], d[1])
+		return geojson.NewLineString(m), m
+	case *geojson.Polygon:
+		m := o.Base().Move(d[0], d[1])
+		return geojson.NewPolygon(m), m.Exterior
+	}
+	panic("unexpected kind")
+}
+
+func movedProbes(ser geometry.Series, s int) []bigProbe {
+	a, b := ser.PointAt(s), ser.PointAt(s+1)
+	mid := geometry.Point{X: (a.X + b.X) / 2, Y: (a.Y + b.Y) / 2}
+	above := geometry.Point{X: mid.X, Y: mid.Y + 0.5}
+	below := geometry.Point{X: mid.X, Y: mid.Y - 1}
+	return []bigProbe{
+		{"vertex-a", geojson.NewPoint(a), true, true},
+		{"vertex-b", geojson.NewSimplePoint(b), true, true},
+		{"above", geojson.NewPoint(geometry.Point{X: mid.X, Y: mid.Y + 2}), false, true},
+		{"cross", geojson.NewLineString(geometry.NewLine([]geometry.Point{above, below}, nil)), false, false},
+		{"feature-vertex", geojson.NewFeature(geojson.NewPoint(a), ""), true, true},
+		{"multipoint", geojson.NewMultiPoint([]geometry.Point{a, b}), true, false},
+	}
+}
+
+func movedCheck(shape int, A geojson.Object, pr bigProbe, ref *[2]tri) (ab, ba tri, out []bigVerdict) {
+	ab, ba = predicates(A, pr.o), predicates(pr.o, A)
+	fail := func(class, exp, got string) { out = append(out, bigVerdict{class, exp, got}) }
+	if !ab.ok || !ba.ok {
+		fail("panic", "no panic", "panic")
+		return
+	}
+	if ab.w != ba.c || ba.w != ab.c {
+		fail("duality", "A.Within(B) == B.Contains(A)", fmt.Sprintf("%v/%v vs %v/%v", ab.w, ba.c, ba.w, ab.c))
+	}
+	if ab.i != ba.i {
+		fail("symmetry", "A.Intersects(B) == B.Intersects(A)", fmt.Sprintf("%v vs %v", ab.i, ba.i))
+	}
+	if ab.c && !ab.i {
+		fail("contains=>intersects", "intersects", "contains but does not intersect")
+	}
+	if ref != nil && (ab != ref[0] || ba != ref[1]) {
+		fail("index-kind-dependence", fmt.Sprintf("as without index: %v %v", ref[0], ref[1]), fmt.Sprintf("%v %v", ab, ba))
+	}
+	if pr.onB && (!ab.i || !ab.c) {
+		fail("own-position", "contains and intersects a point at one of its own positions", fmt.Sprintf("c=%v i=%v", ab.c, ab.i))
+	}
+	if pr.name == "above" && shape == 0 && (ab.i || ab.c) {
+		fail("far-point", "false", fmt.Sprintf("c=%v i=%v", ab.c, ab.i))
+	}
+	if pr.name == "cross" && !ab.i {
+		fail("cross-intersects", "true", "false")
+	}
+	return
+}
+
+func c09BigMoved(r *rt.Run) {
+	type job struct {
+		shape, n, di int
+	}
+	var jobs []job
+	for shape := 0; shape < 2; shape++ {
+		for _, n := range []int{33, 65, 68, 257, 4097} {
+			for di := range c09MoveDeltas {
+				jobs = append(jobs, job{shape, n, di})
+			}
+		}
+	}
+	r.Bounds["moved_big_objects"] = len(jobs) * len(c09BigKinds)
+	r.ParFor(len(jobs), func(i int, w *rt.Worker) {
+		jb := jobs[i]
+		d := c09MoveDeltas[jb.di]
+		objs := make([]geojson.Object, len(c09BigKinds))
+		sers := make([]geometry.Series, len(c09BigKinds))
+		for k, kind := range c09BigKinds {
+			objs[k], sers[k] = bigMoved(jb.shape, jb.n, kind, d)
+		}
+		noneIdx := len(c09BigKinds) - 1
+		w.States += int64(len(objs))
+		nz := zigSegs(jb.shape, jb.n)
+		for s := 0; s < nz; s++ {
+			if jb.n > 300 && s%61 != 0 && s < nz-3 && s > 3 {
+				continue
+			}
+			prs := movedProbes(sers[noneIdx], s)
+			for pi, pr := range prs {
+				rab, rba, _ := movedCheck(jb.shape, objs[noneIdx], pr, nil)
+				ref := [2]tri{rab, rba}
+				for k := range objs {
+					var rp *[2]tri
+					if k != noneIdx {
+						rp = &ref
+					}
+					_, _, vs := movedCheck(jb.shape, objs[k], pr, rp)
+					w.Evals += 6
+					w.Nontriv++
+					for _, v := range vs {
+						v, k, s, pi := v, k, s, pi
+						w.Fail("moved-"+v.class, func() (rt.Case, string, string) {
+							return rt.Case{Kind: "bigmoved", Op: v.class, Nums: []float64{float64(jb.shape), float64(jb.n), float64(k), float64(s), float64(pi), float64(jb.di)}}, v.exp, v.got
+						})
+					}
+				}
+			}
+		}
+		if jb.n <= 300 {
+			for k, o := range objs {
+				self := predicates(o, o)
+				w.Evals += 3
+				if !self.ok || !self.c || !self.i || !self.w {
+					w.Fail("moved-reflexive", func() (rt.Case, string, string) {
+						return rt.Case{Kind: "bigmoved", Op: "reflexive", Nums: []float64{float64(jb.shape), float64(jb.n), float64(k), 0, 0, float64(jb.di)}}, "contains, is within and intersects itself", fmt.Sprint(self)
+					})
+				}
+			}
+		}
+	})
+}
+
+func evalC09BigMoved(c *rt.Case) (bool, string, string, error) {
+	if len(c.Nums) < 6 {
+		return false, "", "", fmt.Errorf("malformed case")
+	}
+	shape, n, k, s, pi, di := int(c.Nums[0]), int(c.Nums[1]), int(c.Nums[2]), int(c.Nums[3]), int(c.Nums[4]), int(c.Nums[5])
+	if shape < 0 || shape > 1 || n < 4 || n > 1<<20 || k < 0 || k >= len(c09BigKinds) || di < 0 || di >= len(c09MoveDeltas) || s < 0 || s >= zigSegs(shape, n) {
+		return false, "", "", fmt.Errorf("malformed case")
+	}
+	o, _ := bigMoved(shape, n, c09BigKinds[k], c09MoveDeltas[di])
+	if c.Op == "reflexive" {
+		self := predicates(o, o)
+		return !self.ok || !self.c || !self.i || !self.w, "contains, is within and intersects itself", fmt.Sprint(self), nil
+	}
+	on, ser := bigMoved(shape, n, geometry.None, c09MoveDeltas[di])
+	prs := movedProbes(ser, s)
+	if pi < 0 || pi >= len(prs) {
+		return false, "", "", fmt.Errorf("malformed case")
+	}
+	var rp *[2]tri
+	if c09BigKinds[k] != geometry.None {
+		rab, rba, _ := movedCheck(shape, on, prs[pi], nil)
+		rp = &[2]tri{rab, rba}
+	}
+	_, _, vs := movedCheck(shape, o, prs[pi], rp)
+	for _, v := range vs {
+		if v.class == c.Op {
+			return true, v.exp, v.got, nil
+		}
+	}
+	return false, "", "", nil
+}
+
 func evalC09Big(c *rt.Case) (bool, string, string, error) {
 	if len(c.Nums) < 5 {
 		return false, "", "", fmt.Errorf("malformed case")
